@@ -54,6 +54,27 @@ def rne (x : Rat) : Rat :=
     let s := pow2 (ilog2 a - 52)
     ((roundEven (x / s) : Int) : Rat) * s
 
+/-! ## binary64 bit patterns (for the direct comparison of `rne` with the hardware, op `fop`) -/
+
+/-- value of a binary64 bit pattern; `none` for zero, subnormals, infinities and NaN -/
+def f64ToRat (b : Nat) : Option Rat :=
+  let sign : Nat := b / 2 ^ 63 % 2
+  let e : Nat := b / 2 ^ 52 % 2048
+  let m : Nat := b % 2 ^ 52
+  if e = 0 ∨ e = 2047 then none
+  else
+    let v : Rat := ((2 ^ 52 + m : Nat) : Rat) * pow2 ((e : Int) - 1075)
+    some (if sign = 1 then -v else v)
+
+/-- bit pattern of a rational that is exactly a normal binary64 value (or `+0`), else `none` -/
+def ratToF64 (x : Rat) : Option Nat :=
+  if x = 0 then some 0 else
+    let a := if 0 ≤ x then x else -x
+    let e := ilog2 a
+    let q := a / pow2 (e - 52)
+    if q.den ≠ 1 ∨ e + 1023 < 1 ∨ 2046 < e + 1023 then none
+    else some ((if 0 ≤ x then 0 else 2 ^ 63) + (e + 1023).toNat * 2 ^ 52 + (q.num.toNat - 2 ^ 52))
+
 /-! ## Go conversions and library functions -/
 
 def two32 : Int := 4294967296
